@@ -4,7 +4,7 @@
    the invalid ones before reducing (NaN masking), except for the bitwise and/or reductions. *)
 From Coq Require Import QArith.
 From HS Require Import Prelude Cov Map Spec Ops Spec2 Params AtFold MapProofs UpdateProofs HistoryProofs
-     LayoutProofs AccountProofs OpsProofs RebuildProofs CongRefine Exec Exec2 ExecProofs.
+     LayoutProofs AccountProofs OpsProofs RebuildProofs CongRefine Rehouse Exec Exec2 ExecProofs.
 Open Scope Z_scope.
 
 Section C07.
@@ -86,9 +86,33 @@ Proof.
   - intros pv [<-|[<-|[<-|[]]]]; (split; [apply Z.leb_le|apply Z.ltb_lt]; vm_compute; reflexivity).
 Qed.
 
+(* degrading below the coverage resolution: the map is first re-housed on an empty map with the coarser
+   coverage resolution (valid pixels assigned), then degraded as usual.  The re-housed map is well formed and
+   IS "an equal map built with that coarser coverage resolution": same pixel count and sentinel, at every pixel
+   the original value where valid and the sentinel elsewhere — so the degrade theorems above apply to it *)
+Theorem C07_rehousing_gives_an_equal_map_with_the_coarser_coverage :
+  forall (P : params) (n' nf' : Z) (m : smap (p_V P)),
+    MapProofs.wf P m -> 0 <= n' -> 0 < nf' -> n' * nf' = npix (p_V P) m ->
+    let m' := rehouse P n' nf' m in
+    MapProofs.wf P m' /\ npix (p_V P) m' = npix (p_V P) m /\ nfine m' = nf' /\ blank m' = blank m /\
+    (forall q, 0 <= q < npix (p_V P) m ->
+       read (p_V P) (p_dv P) m' q = if p_valid P (read (p_V P) (p_dv P) m q) then read (p_V P) (p_dv P) m q else blank m) /\
+    (forall q, 0 <= q < npix (p_V P) m ->
+       p_valid P (read (p_V P) (p_dv P) m' q) = p_valid P (read (p_V P) (p_dv P) m q)).
+Proof. exact rehouse_spec. Qed.
+
+(* the interpreter's re-housing (op 22 without pre-allocated coverage pixels) is this function *)
+Theorem C07_interpreter_rehousing_is_the_model :
+  forall (k : kinfo) (n' nf' : Z) (m : smap cellv),
+    x_update k (make_empty cellv n' nf' (blank m) None) URepl (Exec2.valid_pvs k m) false =
+    rehouse (xparams k) n' nf' m.
+Proof. intros. reflexivity. Qed.
+
 Print Assumptions C07_degrade_reduces_the_children.
 Print Assumptions C07_degrade_refines.
 Print Assumptions C07_degrade_keeps_layout.
 Print Assumptions C07_degrade_keeps_coverage.
 Print Assumptions C07_no_valid_child_is_invalid.
 Print Assumptions C07_hypotheses_satisfiable.
+Print Assumptions C07_rehousing_gives_an_equal_map_with_the_coarser_coverage.
+Print Assumptions C07_interpreter_rehousing_is_the_model.
